@@ -33,6 +33,7 @@ shim_item_t *shim_lrm_h(shim_ht_t *, int kid, int salt); shim_item_t *shim_lrm(s
 int shim_for_all(shim_ht_t *, int *ids, int cap);
 int shim_nb_bits(shim_ht_t *); int shim_resizes(shim_ht_t *); int shim_locate(shim_ht_t *, int kid);
 int shim_count_all(shim_ht_t *, int *unreach, int *badlen, int *old_with_items);
+extern void (*shim_on_panic)(const char *msg);
 }
 
 enum { INSERT = 0, FIND = 1, REMOVE = 2, IIA = 3, IIA_H = 4, LRM_H = 5, LRM = 6, NOPS = 7 };
@@ -280,6 +281,7 @@ static int do_stress(int T, int rounds, unsigned seed) {
     Lcg cfg(seed * 977u + T);
     std::atomic<uint64_t> clock{1};
     std::string err; std::string repr = "C32-stress threads " + std::to_string(T) + " rounds " + std::to_string(rounds) + " seed " + std::to_string(seed) + "\n";
+    g_current = repr;
     uint64_t total_ops = 0, skipped = 0, total_resizes = 0, groups_2resizes = 0;
     pthread_barrier_t bar; pthread_barrier_init(&bar, nullptr, T + 1);
     shim_ht_t *ht = nullptr;
@@ -375,9 +377,11 @@ static int do_stress(int T, int rounds, unsigned seed) {
     return 0;
 }
 
+static void panic_hook(const char *msg) { vf::record_failure(g_current, msg); vf::dump(); fprintf(stderr, "C32: %s\n", msg); fflush(nullptr); _exit(1); }
+
 int main(int argc, char **argv) {
     std::string mode = argc > 1 ? argv[1] : "rc";
-    dsched::on_fatal() = fatal_hook;
+    dsched::on_fatal() = fatal_hook; shim_on_panic = panic_hook;
     if (shim_init() != 0 || shim_selfcheck() != 0) { fprintf(stderr, "C32: hash table internals do not match the harness's view (bucket layout / MCA parameters)\n"); return 4; }
     if (mode == "replay") {
         std::string txt = vf::slurp(argv[2]);
